@@ -100,6 +100,14 @@ def corpus():
         for cls, kw in (("MinFlowDecompCycles", {}), ("kFlowDecompCycles", {"k": 1}), ("kMinPathErrorCycles", {"k": 1}), ("kLeastAbsErrorsCycles", {"k": 1})):
             k2 = dict(kw); k2.update({"flow_attr": "flow", "weight_type": "int", "flow_attr_origin": "node", "additional_starts": [rn[0]], "additional_ends": [rn[-1]]})
             out.append({"cls": cls, "inst": {"cls": cls, "spec": sp, "kw": k2}})
+    # float flows below 1 (and numpy-typed integer flows) given to the cyclic minimum decomposition: its lower-bound / guessed-weights
+    # options must not change whether the input is accepted
+    E3 = [("s", "a", 0.75), ("a", "b", 0.25), ("a", "c", 0.5), ("b", "t", 0.25), ("c", "t", 0.5)]
+    sp3 = gen.spec(["s", "a", "b", "c", "t"], [(u, v) for u, v, _ in E3], eattr={(u, v): {"flow": f} for u, v, f in E3})
+    out.append({"cls": "MinFlowDecompCycles", "inst": {"cls": "MinFlowDecompCycles", "spec": sp3, "kw": {"flow_attr": "flow", "weight_type": "float"}}})
+    for npt in ("int64", "float32", "uint8"):
+        sp4 = gen.spec(["s", "a", "b", "c", "t"], [(u, v) for u, v, _ in E3], eattr={(u, v): {"flow": int(f * 4)} for u, v, f in E3}); sp4["np_type"] = npt
+        out.append({"cls": "MinFlowDecompCycles", "inst": {"cls": "MinFlowDecompCycles", "spec": sp4, "kw": {"flow_attr": "flow", "weight_type": "float" if npt == "float32" else "int"}}})
     return out
 
 
